@@ -463,14 +463,16 @@ func do_PRINT_EXPR(vm *Vm, arg int32) error {
 	// After printing, also assign to '_'
 	// Before, set '_' to None to avoid recursion
 	value := vm.POP()
-	vm.frame.Globals["_"] = py.None
-	if value != py.None {
-		repr, err := py.Repr(value)
-		if err != nil {
-			return err
-		}
-		PrintExpr(fmt.Sprint(repr))
+	if value == py.None {
+		// nothing is echoed and '_' keeps its value
+		return nil
 	}
+	vm.frame.Globals["_"] = py.None
+	repr, err := py.Repr(value)
+	if err != nil {
+		return err
+	}
+	PrintExpr(fmt.Sprint(repr))
 	vm.frame.Globals["_"] = value
 	return nil
 }
